@@ -184,6 +184,11 @@ def run(ctx):
                 if margin < 1e-7:
                     ctx.borderline += 1
                     continue
+                if not np.all(ok):
+                    # a row whose value is numerical noise (tolerance > 1e-4) can take any value in either run and
+                    # change the maximum: the accepted sets are only comparable when every row is well determined
+                    ctx.count("accepted_set_not_comparable_illconditioned_row")
+                    continue
                 tags_t = np.searchsorted(pb.tagP * (1 - 1e-12), np.asarray(out_t["P"].to_value("d"))) if False else \
                     np.array([int(np.argmin(np.abs(np.log(pb.tagP) - np.log(x)))) for x in np.asarray(out_t["P"].to_value("d"))])
                 ctx.evaluations += 1
@@ -195,19 +200,45 @@ def run(ctx):
                 du2 = gen.U(d2["unit"])
                 if not out_t["K"].unit.is_equivalent(du2) or out_t["K"].unit != du2:
                     ctx.violation("output-unit", "K column of the twin has unit %s, data unit is %s" % (out_t["K"].unit, du2), wdesc)
-                for nm in ("K", "v0"):
-                    a = np.asarray(out_b[nm].to_value(gen.U(pb.du)))
-                    b = np.asarray(out_t[nm].to_value(gen.U(pb.du)))
-                    sds = np.array([np.sqrt(e["cov"][0 if nm == "K" else 1][0 if nm == "K" else 1]) for e in mvb])
-                    cn = np.array([np.linalg.cond(np.asarray(e["cov"])) for e in mvb])
-                    if len(a) == len(b) == len(sds):
-                        tolx = (1e-6 + 1e3 * oracle.EPS * cn) * sds + 1e-9 * np.abs(a)
+                # the linear parameters: (i) the (mean, cov) handed to the generator must be physically equal; (ii) each
+                # draw must have the same Mahalanobis distance from its mean. Direct equality of the variates is NOT
+                # demanded: numpy factors cov by SVD, and a 1e-16 change of cov may flip the sign/order of nearly
+                # degenerate singular vectors, mapping the same standard normals to another (equally valid) draw.
+                mvt = [e for e in recgen.EVENTS if e["op"] == "multivariate_normal"]
+                Lp = pb.lin.L
+                scale = np.array([f_data] * (2 + pb.ps["n_offsets"]) + [f_data] * (pb.ps["poly_trend"] - 1))
+                names_l = ["K", "v0"] + ["dv0_%d" % k for k in range(1, pb.ps["n_offsets"] + 1)] + \
+                          ["v%d" % k for k in range(1, pb.ps["poly_trend"])]
+                import astropy.units as _u
+                un_b = [gen.U(pb.du)] * (2 + pb.ps["n_offsets"]) + [gen.U(pb.du) / _u.day ** k for k in range(1, pb.ps["poly_trend"])]
+                if len(mvt) == len(mvb) and len(out_t) == len(out_b) == len(mvb):
+                    Xb = np.stack([np.asarray(out_b[nm].to_value(un)) for nm, un in zip(names_l, un_b)], axis=1)
+                    Xt = np.stack([np.asarray(out_t[nm].to_value(un)) for nm, un in zip(names_l, un_b)], axis=1)
+                    for r, (eb, et) in enumerate(zip(mvb, mvt)):
+                        mb, cb = np.asarray(eb["mean"]), np.asarray(eb["cov"])
+                        mt_, ct_ = np.asarray(et["mean"]) / scale, np.asarray(et["cov"]) / np.outer(scale, scale)
+                        sd = np.sqrt(np.diag(cb))
+                        cn = np.linalg.cond(cb)
+                        tolr = 1e-6 + 1e3 * oracle.EPS * cn
+                        if tolr > 1e-3:
+                            ctx.count("posterior_rows_too_illconditioned")
+                            continue
                         ctx.evaluations += 1
-                        if np.any(np.abs(a - b) > tolx) and np.all(tolx < 1e-2 * sds):
-                            r = int(np.argmax(np.abs(a - b) / tolx))
-                            ctx.violation("posterior-not-unit-invariant", "%s of accepted row %d: base %.10g vs twin %.10g %s "
-                                          "(posterior sd %.3g)" % (nm, r, a[r], b[r], pb.du, sds[r]), wdesc)
+                        dm = np.max(np.abs(mt_ - mb) / sd)
+                        dc = np.max(np.abs(ct_ - cb) / np.outer(sd, sd))
+                        if dm > tolr or dc > tolr:
+                            ctx.violation("posterior-not-unit-invariant", "accepted row %d: conditional posterior (mean, cov) of the linear "
+                                          "parameters differs between base and twin: |dmean|/sd %.3g, |dcov|/(sd sd) %.3g (allowed %.3g)"
+                                          % (r, dm, dc, tolr), wdesc)
                             break
+                        qb = float((Xb[r] - mb) @ np.linalg.solve(cb, Xb[r] - mb))
+                        qt = float((Xt[r] - mb) @ np.linalg.solve(cb, Xt[r] - mb))
+                        if abs(qb - qt) > 1e-5 * (1 + qb) + 100 * tolr * (1 + qb):
+                            ctx.violation("posterior-not-unit-invariant", "accepted row %d: the twin's draw has Mahalanobis distance %.8g "
+                                          "from the posterior mean, the base draw %.8g" % (r, qt, qb), wdesc)
+                            break
+                        if np.max(np.abs(Xb[r] - Xt[r]) / sd) > 1e-5:
+                            ctx.count("draws_differ_by_svd_factor_only")
                 for nm, want_u in (("P", "d"), ("omega", "rad"), ("M0", "rad")):
                     a = np.asarray(out_b[nm].to_value(gen.U(want_u)))
                     b = np.asarray(out_t[nm].to_value(gen.U(want_u)))
